@@ -47,7 +47,7 @@ CFG = {
     "exe": "geomv_c14",
     "go_cmd": "c14",
     "stages": ["go:gen", "go:impl", "lean:judge"],
-    "theorems": [T + n for n in ["C14_glue", "C14_trivial", "C14_exact", "C14_vertices", "C14_empty_iff", "oracle_midpoints_inside", "oracle_endpoints_on_L", "oracle_subintervals_cover", "oracle_complete", "oracle_complete_col", "boundary_param_mem", "oracle_intervals_disjoint", "collinear_free", "C14_length"]],
+    "theorems": [T + n for n in ["C14_glue", "C14_trivial", "C14_exact", "C14_vertices", "C14_empty_iff", "oracle_midpoints_inside", "oracle_endpoints_on_L", "oracle_subintervals_cover", "oracle_complete", "oracle_complete_col", "boundary_param_mem", "oracle_intervals_disjoint", "collinear_free", "C14_length", "C14_together_defect"]],
     "level": "proof",
     "trusted_base": [
         "Lean 4.33.0 kernel; axioms of every theorem printed by #print axioms must be within {propext, Classical.choice, Quot.sound}",
@@ -57,7 +57,7 @@ CFG = {
         "harness/cmd/c14 (+ harness/cmd/c01/shapes) + lean driver + lib/vcheck.py transport inputs faithfully",
     ],
     "assumptions": ["finite coordinates; membership in P is the even-odd rule over all rings of all member polygons; the oracle is proved sound and complete (oracle_complete: off the finitely many crossing parameters a point of a segment is inside P iff its parameter lies in an oracle interval); the length clause is proved under the segment form of the contract (ClipLineSegsSpec)"],
-    "rule": "simple open integer-grid polylines (random walks, zigzags with many crossings, walks entirely inside, entirely outside within the box, box-disjoint, straight through) and multi-line strings of 1-4 pairwise disjoint members "
+    "rule": "simple open integer-grid polylines (random walks, zigzags with many crossings, walks entirely inside, entirely outside within the box, box-disjoint, straight through) and multi-line strings of 1-4 members that are pairwise disjoint or form a network (two routes between the same junctions with equal / different vertex counts and either direction, branches at a common end point; interiors never cross) "
             "against polygons with holes / multi-polygons / boxes at half-integer offsets (no line vertex on the boundary, no polygon vertex on the line: rejected by exact int64 tests); "
             "40% of the cases at coordinate scales 2^-20/2^-24/2^-30/2^+20 (dyadic: exact), multi-call histories on one line with operands overwritten in place, operands over one flat backing array and compared with a snapshot after each call, size-threshold cases (vertex/ring/member counts beyond 64/128/1024; lines of 1024..3000 vertices); distinct = distinct input line; non-trivial = verdict class not '-outside-quantifier' (degenerate corpus receivers, compared with the model only)",
     "trivial_class": r"outside-quantifier$",
